@@ -88,6 +88,8 @@ func runCase(c caseLine) (obs string) {
 		return execDec(toks)
 	case "rt":
 		return execRt(toks)
+	case "tm":
+		return execTm(toks)
 	case "st":
 		return execSt(toks)
 	case "fw":
@@ -138,7 +140,7 @@ func main() {
 	var cases []caseLine
 	for _, f := range flag.Args() {
 		for _, c := range readCorpus(f) {
-			if strings.HasPrefix(c.text, *mode+" ") {
+			if strings.HasPrefix(c.text, *mode+" ") || (*mode == "rt" && strings.HasPrefix(c.text, "tm ")) {
 				cases = append(cases, c)
 			}
 		}
@@ -151,6 +153,7 @@ func main() {
 			cases = append(cases, genDec(r, thorough)...)
 		case "rt":
 			cases = append(cases, genRt(r, thorough)...)
+			cases = append(cases, genTm(r, thorough)...)
 		case "st":
 			cases = append(cases, genSt(r, thorough)...)
 		case "fw":
